@@ -496,6 +496,9 @@ def run_faults(run, vf, prop):
             traces.append((r["case"], "\n".join(json.dumps(x) for x in recs) + "\n", len(recs)))
     run.absorb(results)
     ack_only = stream_out[0][0] if stream_out[0] else []
+    if stream_out[0]:
+        for k, v in stream_out[0][1].items():      # stream rows are reported with their events
+            byid.setdefault(k, {"script": ["stream row"], "items": v.get("events")})
     if run.cov.get("undriven", 0) * 3 > 2 * len(cases):
         raise vf.Inconclusive("%d of %d scenarios could not be driven" % (run.cov["undriven"], len(cases)))
 
